@@ -157,7 +157,7 @@ type c11World struct {
 	pub         *stream.EventPublisher
 	r           *simkit.Run
 	subs        map[int64]*subscriber
-	zombies     []*stream.Subscription // force-closed subscriptions whose owners have not released them yet
+	zombies     []*stream.Subscription       // force-closed subscriptions whose owners have not released them yet
 	truth       map[string]map[uint64]string // subject key -> commit index -> canonical result
 	commits     []uint64
 	tokenWrites map[string]int // secret -> number of committed token writes (published or not)
